@@ -69,6 +69,8 @@ def _run_random(cfg, prog, kind, seed, tid):
     rng = random.Random(seed)
     if kind == 'pct':
         st = sched.pct_strategy(rng, len(prog), rng.choice([1, 2, 3]), 40)
+    elif kind == 'pct-lines':
+        st = sched.pct_strategy(rng, len(prog), rng.choice([2, 3, 3, 4]), rng.choice([150, 300, 500]))
     elif kind == 'hunter':
         st = sched.hunter_strategy(rng, rng.choice([0.3, 0.6, 0.8]))
     else:
@@ -261,6 +263,29 @@ def run_c05(tier, seed):
         cfg = base_cfg(rng, False, rng.choice(['absent', 'inline']))
         cfg['shared'] = 2
         jobs_rand.append((cfg, prog, 'hunter', seed * 100000 + 50000 + i, 0))
+    # threads sharing one object, interleaved at every LINE of the library (not only at database / file operations):
+    # attributes cached on the shared object (item count, settings, transaction owner) must not leak between threads
+    lineops = [op('len'), op('len'), op('set', k=KB, v=5, ttl=[], tag=0), op('delete', k=KA, mk='false'), op('incr', k=KA, d=1, df=[0]),
+               op('get', k=KA, fx=0, ft=0, mk='miss'), op('contains', k=KB), op('add', k=KB, v=7, ttl=[], tag=0), op('pop', k=KB, fx=0, ft=0)]
+    for i in range(100 if tier == 'quick' else 2500):
+        prog = {c_: [rng.choice(lineops) for _ in range(rng.randint(1, 3))] for c_ in range(1, rng.choice([2, 3]) + 1)}
+        cfg = base_cfg(rng, True, rng.choice(['absent', 'inline']), stats=rng.random() < 0.3)
+        cfg['lines'] = 1
+        jobs_rand.append((cfg, prog, rng.choice(['random', 'pct-lines', 'pct-lines']), seed * 100000 + 80000 + i, 0))
+    # ... and exhaustively (<= 2 preemptions) at every assignment to an attribute of the shared object
+    writers = [op('set', k=KB, v=5, ttl=[], tag=0), op('delete', k=KA, mk='false'), op('incr', k=KB, d=1, df=[0])]
+    readers = [op('len'), op('get', k=KA, fx=0, ft=0, mk='miss'), op('contains', k=KB)]
+    combos = [(w, r1, r2) for w in writers for r1 in readers for r2 in readers]
+    rng.shuffle(combos)
+    for w, r1, r2 in combos[:(4 if tier == 'quick' else len(combos))]:
+        cfg = base_cfg(rng, True, 'inline', stats=rng.random() < 0.5)
+        cfg['attr_yields'] = 1
+        jobs_dfs.append((cfg, {1: [w, r1], 2: [r2]}, 2, 250 if tier == 'quick' else 1500, seed, tid))
+        tid += 1000
+    cfg = base_cfg(rng, True, 'inline')
+    cfg['attr_yields'] = 1
+    jobs_dfs.append((cfg, {1: [writers[0], op('len')], 2: [op('len')]}, 2, 400 if tier == 'quick' else 2500, seed, tid))
+    tid += 1000
     design_level(out, 'C05', tier)
     sch = tlc_schedules('pairs', tier, seed) + (tlc_schedules('triples', tier, seed) + tlc_schedules('seq', tier, seed) if tier == 'thorough' else [])
     rng.shuffle(sch)
